@@ -384,6 +384,28 @@ def partition_degenerate(solver):
     return False
 
 
+def image_space_degenerate(solver, lower, upper):
+    """N = 1 only: True when two neighbouring curve coordinates of the search information (the ends 0 and 1 included) are so
+    close that their IMAGES in the box are not distinguishable (|dx|*side below 4 ulp of the larger bound in magnitude).
+    Iteration batches ignore eps, so a run can be driven until a trial sits closer to its neighbour (or to the box boundary) than
+    the spacing of doubles in the box's own coordinates; rounding of lower + x*side then decides on which side it lands.
+    Such a run has left the floating-point domain of the box exactly as a partition of adjacent doubles has (DESIGN.md section 3)."""
+    try:
+        lo = float(np.asarray(lower, dtype=float)[0])
+        hi = float(np.asarray(upper, dtype=float)[0])
+        if len(np.asarray(lower).ravel()) != 1:
+            return False
+        xs = [float(it.GetX()) for it in solver.searchData]
+    except Exception:
+        return False
+    lim = 4.0 * float(np.spacing(max(abs(lo), abs(hi))))
+    side = hi - lo
+    for a, b in zip(xs, xs[1:]):
+        if (b - a) * side <= lim:
+            return True
+    return False
+
+
 def global_log(t):
     return [e for e in t.log if e["ph"] == "g"]
 
